@@ -780,6 +780,9 @@ func (p *InlineParser) parseEndBracket(state *inlineState, start int) (end int) 
 	// Attempt as inline link first,
 	// but fall back to shortcut reference link below.
 	if start+1 < state.spanEnd() && state.source[start+1] == '(' {
+		// parseInlineLink moves state.unparsedPos to the line the link ends on,
+		// but its destination and title may start on earlier lines.
+		linkSpans := state.unparsed[state.unparsedPos:]
 		if info := p.parseInlineLink(state, start+1); info.span.IsValid() {
 			linkNode := state.wrap(kind, state.stack[openDelimIndex].node, nil)
 			linkNode.span = Span{
@@ -792,7 +795,7 @@ func (p *InlineParser) parseEndBracket(state *inlineState, start int) (end int) 
 					span: info.destination.span,
 				}
 				if info.destination.text.IsValid() {
-					r := newInlineByteReader(state.source, state.unparsed[state.unparsedPos:], info.destination.text.Start)
+					r := newInlineByteReader(state.source, linkSpans, info.destination.text.Start)
 					collectLinkAttributeText(destNode, r, info.destination.text.End)
 				}
 				linkNode.children = append(linkNode.children, destNode)
@@ -803,7 +806,7 @@ func (p *InlineParser) parseEndBracket(state *inlineState, start int) (end int) 
 					span: info.title.span,
 				}
 				if info.title.text.IsValid() {
-					r := newInlineByteReader(state.source, state.unparsed[state.unparsedPos:], info.title.text.Start)
+					r := newInlineByteReader(state.source, linkSpans, info.title.text.Start)
 					collectLinkAttributeText(destNode, r, info.title.text.End)
 				}
 				linkNode.children = append(linkNode.children, destNode)
